@@ -225,8 +225,9 @@ def attach_generators():
             rec.violation("C17", "helper/get_rand_term_templates/raises", "get_rand_term_templates raised",
                           {"summary": f"get_rand_term_templates({num}) raised {type(exc).__name__}: {exc}"})
             return
-        keys = [(t.variable, t.exponent) for t in res]
-        ex = [(t.variable, t.exponent) for t in excl]
+        # (the exponent's type is part of the key: the pinned code tells x^2 from x^2.0, and asking for more is not the property)
+        keys = [(t.variable, t.exponent, type(t.exponent).__name__) for t in res]
+        ex = [(t.variable, t.exponent, type(t.exponent).__name__) for t in excl]
         if len(res) != num or len(set(keys)) != len(keys) or any(kk in ex for kk in keys) or any(t.exponent == 1 for t in res):
             rec.violation("C17", "helper/get_rand_term_templates/set", "term templates are not distinct / excluded ones returned",
                           {"summary": f"get_rand_term_templates({num}, exclude={ex}) = {keys}"})
@@ -375,6 +376,21 @@ def run(rec, cfg):
                 ex = [P.MathyProblemTerm(variable=v, exponent=None) for v in rng.sample("xyz", 2)]
                 P.get_rand_term_templates(1, exclude_like=ex, common_variables=True, exponent_probability=0)
                 rec.arm("helper:get_rand_term_templates:subclass-exclusions")
+                # ... or templates whose exponent is a float with a whole value (2.0, 7.0): with one letter
+                # and few exponents to choose from an ignored exclusion comes back quickly
+                # the second call re-draws exactly what the first call returned (same seed) while excluding it: in
+                # the non-pretty mode that includes float exponents with whole values (7.0), negative and huge ones
+                P.use_pretty_numbers(False)
+                sd = rng.randrange(10 ** 9)
+                random.seed(sd)
+                first = P.get_rand_term_templates(5, common_variables=True, exponent_probability=1.0)
+                random.seed(sd)
+                try:
+                    P.get_rand_term_templates(2, exclude_like=first, common_variables=True, exponent_probability=1.0)
+                except EnvironmentError:
+                    pass
+                P.use_pretty_numbers(True)
+                rec.arm("helper:get_rand_term_templates:redrawn-exclusions")
             except Exception:
                 pass
             for pretty in (True, False):
